@@ -21,9 +21,34 @@ CLAIMED = {
             "schedule enumeration (preemption-bounded DFS under the controlled scheduler) with the Go race detector as the per-execution oracle; the scheduler's quiescence barrier adds no happens-before edges, so -race sees only the library's own synchronisation",
             "The query scenarios of C04 plus an insert during which the server reports progress while the client still streams, each with OpenTelemetry instrumentation on and off, fault-free and with a server exception, plus Close / IsClosed / ServerInfo / cancel from a foreign goroutine, are explored up to the bound (quick 1, thorough 2) in a -race build of the instrumented client; any report whose two accesses both lie in ch-go packages is a violation, attributed to the schedule that produced it.",
             "Trusted: the Go race detector (happens-before based: it reports races that the executed schedule exposes, schedules beyond the bound and code the scenarios never run are not covered); simnet's real mutex stands for the kernel's socket synchronisation; no-op OTel providers. Pool scenarios are covered with C11's harness."),
+    "C02": ("exploration", "DESIGN.md §4 C02",
+            "bounded-exhaustive enumeration of query shapes x compression x revision; each case executes the real Connect + Do under the controlled scheduler (default schedule) and the recorded client bytes are compared with the independent reference encoding",
+            "All queries with at most 2 (thorough 3) fields deviating from a base query over per-field alphabets x 5 compression settings at the newest revision, and all queries with at most 1 deviation x every revision of the threshold-neighbour set from 54420 x {Disabled, LZ4}: the Query packet must equal the reference encoding byte for byte, every block must be exactly one Data packet (one checksummed frame iff compression is on) that the reference decoder reads back to the column contents, and nothing else may be written.",
+            "Trusted: refwire/refcol (written from the protocol description, independent of proto/compress), city/lz4/zstd libraries for frames. Client-info fields the caller does not control (client name, version) are taken from the hello the same client sent; the patch number is not compared."),
+    "C03": ("exploration", "DESIGN.md §4 C03",
+            "bounded-exhaustive enumeration of server packet scripts; each case executes the real client against the scripted reference peer and is compared with a reference interpreter of the specified receive loop",
+            "All scripts of length <= 3 (thorough 4) over a 15-symbol server-packet alphabet x {plain, LZ4} x {typed, Auto, no binding}; all scripts of length <= 2 (3) x 16 revisions around every packet-affecting threshold x 9 callback sets; all scripts of length <= 2 x each callback failing. Callback trace (kind, payload, bound column values at callback time), return value and exception chain (errors.As / errors.Is / IsErr for every nested code) must equal the interpreter's.",
+            "Trusted: refwire/refcol as generators of well-formed server streams. The behaviour without OnResult (fails when a block follows one with rows) is taken from the documentation of Query.OnResult."),
+    "C08": ("exploration", "DESIGN.md §4 C08",
+            "bounded-exhaustive enumeration of transport segmentations of enumerated server streams on the simulated connection (reads stop at chosen cut offsets; idle gaps drive the fake clock past the read deadline)",
+            "Every stream of the C03 alphabet up to length 2 (thorough 3) at two revisions, plain and LZ4, is delivered one byte per read, split in two at every offset, with a gap longer than the read timeout before every packet, in all 2^(n-1) ways when it is at most 16 bytes long, and (thorough) in three pieces at every pair of offsets when at most 96 bytes long; outcome must equal the reference interpreter's (= unsegmented) outcome.",
+            "Trusted: as C03. Bytes consumed from the transport are not compared (the client's buffered reader legitimately reads ahead). proto.Reader-level segmentation of whole blocks is part of C07's corpus run."),
+    "C09": ("model_checking", "DESIGN.md §4 C09",
+            "explicit enumeration of all OnInput callback histories up to a depth against a list-of-values reference model; every history is executed on the real client and the blocks on the wire are decoded by the reference model",
+            "All histories of <= 3 (thorough 4) rounds over 9 callback behaviours (append, Reset+append, in-place overwrite, nil unchanged, io.EOF with / without rows, wrapped io.EOF, error) x initial rows {0, 2} x 6 column kinds (incl. zero-copy UInt64 / FixedString, LowCardinality, Array, inferred Enum) alone or with a second column x {plain, LZ4}; thorough additionally explores all schedules with <= 1 preemption while the server sends Progress. The server must receive exactly the model's snapshots, in order, then one empty block; callback errors must stop sending and surface from Do.",
+            "Trusted: refcol decoding of the client's blocks. States = histories (each history is a distinct model state sequence)."),
+    "C13": ("fault_enumeration", "DESIGN.md §4 C13",
+            "exhaustive enumeration of (client revision, server revision) pairs over the threshold-neighbour set and of handshake fault responses (every truncation point of the hello, exception, wrong packet, garbage, cut, silence, late hello), each executed on the real Connect / Dial over the simulated connection with the fake clock",
+            "~2.6k revision pairs with a well-formed hello written by the reference peer with the fields of min(client, server): ServerInfo, addendum presence, and a follow-up query parsed / answered at min(client, server); fault responses on a diagonal of pairs through Connect and Dial: error (carrying the exception), no client, dialled connection closed; hello delayed beyond the read timeout but within the handshake timeout must be accepted.",
+            "Trusted: refwire hello model (fields gated on min of both revisions, as real servers do)."),
 }
 
 ENGINE = {
+    "C02": "E1(default schedule)+E2+E3 (checks/sched)",
+    "C03": "E1(default schedule)+E2+E3 (checks/sched)",
+    "C08": "E1(default schedule + clock)+E2+E3 (checks/sched)",
+    "C09": "E1+E2+E3 (checks/sched)",
+    "C13": "E1(default schedule + clock)+E2+E3 (checks/sched)",
     "C12": "E1 -race (checks/sched built with go1.26 -race, vrt/vsched)",
     "C10": "E1+E2+E3 (checks/sched, vrt/vsched, simnet, refwire)",
     "C04": "E1+E2+E3 (checks/sched, vrt/vsched, simnet, refwire)",
